@@ -30,7 +30,7 @@ ENGINE = {"C08": "cowsim", "C07": "cowsim", "C05": "liftsim", "C06": "liftsim"}
 
 # run budgets (runs, not seconds: the same seed explores the same runs on any machine)
 BUDGET = {
-    ("C08", "quick"): 1_200_000,
+    ("C08", "quick"): 1_000_000,
     ("C08", "thorough"): 24_000_000,
     ("C07", "quick"): 600_000,
     ("C07", "thorough"): 6_000_000,
